@@ -329,7 +329,7 @@ class Batch:
                    f"three_forms (nth k {arrs} (Build_fixarr 0 0 None [])) s inds")
         self.fn_orc = (f"fun c : {ORC_TY} => let '(k, s, orc) := c in "
                        f"match array_intersects (nth k {arrs} (Build_fixarr 0 0 None [])) s None with "
-                       "| Some (Value r) => Nat.eqb (length r) (length orc) && "
+                       "| Some (Value r) => Nat.eqb (List.length r) (List.length orc) && "
                        "forallb (fun ro : bool * option bool => match snd ro with None => true "
                        "| Some b => Bool.eqb (fst ro) b end) (combine r orc) "
                        "| _ => false end")
